@@ -193,6 +193,12 @@ type Aa__Bb struct{ erpc.CallCtx }
 
 func (x *Aa__Bb) Zz(arg *string) (string, *erpc.Status) { ran("Aa__Bb.Zz"); return "Aa__Bb.Zz", nil }
 
+// Dup has two methods that map to the same name under the HTTP mapper (and to different names under the RPC mapper).
+type Dup struct{ erpc.CallCtx }
+
+func (x *Dup) XxYy(arg *string) (string, *erpc.Status)   { ran("Dup.XxYy"); return "Dup.XxYy", nil }
+func (x *Dup) Xx__Yy(arg *string) (string, *erpc.Status) { ran("Dup.Xx__Yy"); return "Dup.Xx__Yy", nil }
+
 type Pp struct{ erpc.PushCtx }
 
 func (x *Pp) Bb(arg *string) *erpc.Status { ran("Pp.Bb"); return nil }
@@ -212,21 +218,38 @@ type regItem struct {
 	id    string   // handler ids this registration provides
 	ids   []string // per returned name (same order)
 	push  bool
+	ctrl  string   // controller struct name ("" for a function)
+	meths []string // method / function identifiers (sorted like reflect's method set)
 	doReg func(r *erpc.SubRouter) []string
+}
+
+// expectedNames computes the names a registration must produce, from the documented construction
+// (group prefix, struct name, method name) with the mapper that part (i) checks against the documentation.
+func (it regItem) expectedNames(mapper func(string, string) string, prefix string) []string {
+	var out []string
+	for _, m := range it.meths {
+		if it.ctrl != "" {
+			out = append(out, mapper(mapper(prefix, it.ctrl), m))
+		} else {
+			out = append(out, mapper(prefix, m))
+		}
+	}
+	return out
 }
 
 func c10Items() []regItem {
 	return []regItem{
-		{id: "Aa", ids: []string{"Aa.Bb", "Aa.Cc_Dd", "Aa.Ee__Ff"}, doReg: func(r *erpc.SubRouter) []string { return r.RouteCall(new(Aa)) }},
-		{id: "Aa_Cc", ids: []string{"Aa_Cc.Dd"}, doReg: func(r *erpc.SubRouter) []string { return r.RouteCall(new(Aa_Cc)) }},
-		{id: "AaBb", ids: []string{"AaBb.Zz"}, doReg: func(r *erpc.SubRouter) []string { return r.RouteCall(new(AaBb)) }},
-		{id: "Aa__Bb", ids: []string{"Aa__Bb.Zz"}, doReg: func(r *erpc.SubRouter) []string { return r.RouteCall(new(Aa__Bb)) }},
-		{id: "FnOne", ids: []string{"FnOne"}, doReg: func(r *erpc.SubRouter) []string { return []string{r.RouteCallFunc(FnOne)} }},
-		{id: "Fn_Two", ids: []string{"Fn_Two"}, doReg: func(r *erpc.SubRouter) []string { return []string{r.RouteCallFunc(Fn_Two)} }},
-		{id: "AaBbFunc", ids: []string{"Aa.Bb"}, doReg: func(r *erpc.SubRouter) []string { return []string{r.RouteCallFunc((*Aa).Bb)} }},
-		{id: "Pp", ids: []string{"Pp.Bb"}, push: true, doReg: func(r *erpc.SubRouter) []string { return r.RoutePush(new(Pp)) }},
-		{id: "AaP", ids: []string{"AaP.Bb"}, push: true, doReg: func(r *erpc.SubRouter) []string { return r.RoutePush(new(AaP)) }},
-		{id: "PushOne", ids: []string{"PushOne"}, push: true, doReg: func(r *erpc.SubRouter) []string { return []string{r.RoutePushFunc(PushOne)} }},
+		{id: "Dup", ids: []string{"Dup.XxYy", "Dup.Xx__Yy"}, ctrl: "Dup", meths: []string{"XxYy", "Xx__Yy"}, doReg: func(r *erpc.SubRouter) []string { return r.RouteCall(new(Dup)) }},
+		{id: "Aa", ids: []string{"Aa.Bb", "Aa.Cc_Dd", "Aa.Ee__Ff"}, ctrl: "Aa", meths: []string{"Bb", "Cc_Dd", "Ee__Ff"}, doReg: func(r *erpc.SubRouter) []string { return r.RouteCall(new(Aa)) }},
+		{id: "Aa_Cc", ids: []string{"Aa_Cc.Dd"}, ctrl: "Aa_Cc", meths: []string{"Dd"}, doReg: func(r *erpc.SubRouter) []string { return r.RouteCall(new(Aa_Cc)) }},
+		{id: "AaBb", ids: []string{"AaBb.Zz"}, ctrl: "AaBb", meths: []string{"Zz"}, doReg: func(r *erpc.SubRouter) []string { return r.RouteCall(new(AaBb)) }},
+		{id: "Aa__Bb", ids: []string{"Aa__Bb.Zz"}, ctrl: "Aa__Bb", meths: []string{"Zz"}, doReg: func(r *erpc.SubRouter) []string { return r.RouteCall(new(Aa__Bb)) }},
+		{id: "FnOne", ids: []string{"FnOne"}, meths: []string{"FnOne"}, doReg: func(r *erpc.SubRouter) []string { return []string{r.RouteCallFunc(FnOne)} }},
+		{id: "Fn_Two", ids: []string{"Fn_Two"}, meths: []string{"Fn_Two"}, doReg: func(r *erpc.SubRouter) []string { return []string{r.RouteCallFunc(Fn_Two)} }},
+		{id: "AaBbFunc", ids: []string{"Aa.Bb"}, meths: []string{"Bb"}, doReg: func(r *erpc.SubRouter) []string { return []string{r.RouteCallFunc((*Aa).Bb)} }},
+		{id: "Pp", ids: []string{"Pp.Bb"}, push: true, ctrl: "Pp", meths: []string{"Bb"}, doReg: func(r *erpc.SubRouter) []string { return r.RoutePush(new(Pp)) }},
+		{id: "AaP", ids: []string{"AaP.Bb"}, push: true, ctrl: "AaP", meths: []string{"Bb"}, doReg: func(r *erpc.SubRouter) []string { return r.RoutePush(new(AaP)) }},
+		{id: "PushOne", ids: []string{"PushOne"}, push: true, meths: []string{"PushOne"}, doReg: func(r *erpc.SubRouter) []string { return []string{r.RoutePushFunc(PushOne)} }},
 	}
 }
 
@@ -260,7 +283,33 @@ func c10Route(p Params) func() {
 		owner := map[string]string{} // call name -> handler id
 		pownr := map[string]string{} // push name -> handler id
 		ctxt := fmt.Sprintf("mapper=%d unknown=%v reg=[%s@%d", mapperIdx, unknown, items[i1].id, g1)
+		mapper := erpc.HTTPServiceMethodMapper
+		if mapperIdx == 1 {
+			mapper = erpc.RPCServiceMethodMapper
+		}
+		prefixes := []string{mapper("", ""), mapper(mapper("", ""), "g"), mapper(mapper(mapper("", ""), "g"), "Hh_Ii")}
+		taken := map[bool]map[string]bool{false: {}, true: {}}
 		doReg := func(it regItem, g int) (conflict bool) {
+			// reference verdict: a registration must fail iff one of its names is already taken (or repeated within it)
+			wantConflict := false
+			seen := map[string]bool{}
+			want := it.expectedNames(mapper, prefixes[g])
+			for _, n := range want {
+				if taken[it.push][n] || seen[n] {
+					wantConflict = true
+				}
+				seen[n] = true
+			}
+			defer func() {
+				if conflict != wantConflict {
+					vsched.Failf("registration of %s under group %d: conflict reported=%v, but by the naming rules (names %v) it should be %v | %s", it.id, g, conflict, want, wantConflict, ctxt)
+				}
+				if !conflict {
+					for _, n := range want {
+						taken[it.push][n] = true
+					}
+				}
+			}()
 			var names []string
 			func() {
 				defer func() {
@@ -280,6 +329,9 @@ func c10Route(p Params) func() {
 			if len(names) != len(it.ids) {
 				vsched.Failf("registration of %s returned %d names for %d handlers | %s", it.id, len(names), len(it.ids), ctxt)
 			}
+			if fmt.Sprint(names) != fmt.Sprint(want) {
+				vsched.Failf("registration of %s returned the names %v, the naming rules give %v | %s", it.id, names, want, ctxt)
+			}
 			// methods are returned in the order of reflect's method set (sorted by name)
 			ids := append([]string(nil), it.ids...)
 			sort.Strings(ids)
@@ -296,15 +348,13 @@ func c10Route(p Params) func() {
 			return false
 		}
 		if doReg(items[i1], g1) {
-			vsched.Failf("first registration reported a conflict | %s", ctxt)
+			world.Counter("conflicts")
+			vsched.Logf("conflict %s", ctxt)
+			return
 		}
 		if i2 < len(items) {
 			ctxt += fmt.Sprintf(" %s@%d", items[i2].id, g2)
-			same := i1 == i2 && g1 == g2
 			conflict := doReg(items[i2], g2)
-			if same && !conflict {
-				vsched.Failf("registering the same controller twice under the same group did not fail | %s", ctxt)
-			}
 			if conflict {
 				world.Counter("conflicts")
 				// a conflicting registration must be justified by a real name clash: verified by the duplicate check above on success;
